@@ -106,3 +106,31 @@ int ctl_precache_nohit(ctl_data_t *d, unsigned long loc)
 	d->current_block = loc;
 	return load_good(loc, &d->data_block);
 }
+
+/* K12-samebound: the hit path and the miss path apply different bounds to the same argument */
+int ctl_seek_two_bounds(struct ctl_meta_t *m, unsigned long block, unsigned long off);
+int ctl_seek_one_bound(struct ctl_meta_t *m, unsigned long block, unsigned long off);
+
+int ctl_seek_two_bounds(struct ctl_meta_t *m, unsigned long block, unsigned long off)
+{
+	if (block == m->block_offset) {
+		if (off > m->data_used)
+			return -1;
+		return 0;
+	}
+	if (off >= m->data_used)
+		return -1;
+	return 0;
+}
+
+int ctl_seek_one_bound(struct ctl_meta_t *m, unsigned long block, unsigned long off)
+{
+	if (block == m->block_offset) {
+		if (off >= m->data_used)
+			return -1;
+		return 0;
+	}
+	if (!(off < m->data_used))
+		return -1;
+	return 0;
+}
